@@ -89,7 +89,7 @@ type registration struct {
 
 // C18 — activation functions.
 func C18(p *Prog, r *Run) {
-	r.Explanation = "Decided: (1) registry: every NodeActivationType constant is registered exactly once, scalar types with Register, module types with RegisterModule, names pairwise distinct, Register/RegisterModule fill the function map and both name maps consistently, and the miss path of all four lookups returns a non-nil error; (2) for the closure registered under each scalar constant, by abstract interpretation (interval x monotonicity x may-NaN, input domain [-1e300,1e300] split at the constants the closure tests): the result lies in the documented range, is finite and never NaN, and is monotonically non-decreasing for the sigmoid family, tanh, linear, clipped-linear and step, including left/right values at every breakpoint; a construct outside the transfer-function table makes the obligation undecided (fails); (3) module folds: multiply starts from 1 and multiplies every input, max/min fold every input with math.Max/Min starting from an identity of the whole domain (±Inf, ±MaxFloat64 or the first element). (4) closed form: every piece of every scalar closure has the algebraic normal form of its documented definition; (5) network.ActivateNode and ActivateModule touch the node(s) with the looked-up value only under err == nil of that lookup and hand the error on. The interpreter follows if/else chains, tagless switches, early returns and (re-)assigned locals of the closure flow-sensitively; a closure produced by a one-line factory with constant arguments is interpreted with the captured constants. A registered activation may be a function literal or a declared top-level function; calls of pure straight-line float helpers of the package are unfolded, the `L: for { ...; break L }` blocks of helpers inlined by the normalisation are followed, idioms (square, soft-sign) are recognised by value through locals (equal normal forms), and input pieces carry open/closed bounds so that a branch excluded by an earlier comparison contributes no piece. The lookups' error result is judged per way it is produced (direct returns and values merged into a single return). A registration is a Register/RegisterModule call with constant arguments, or one element of a local table: an array or slice literal of structs that is written only by the literal (constant indices, outside loops) and otherwise only read inside the function, iterated completely (counter from 0 in steps of 1 up to the table's length, no other exit, not nested, on every path to the return) by a loop whose body makes the call exactly once per iteration with fields of the element at the counter, read directly or through a once-assigned local copy; such a loop counts as one registration per element with the values the literal stores."
+	r.Explanation = "Decided: (1) registry: every NodeActivationType constant is registered exactly once, scalar types with Register, module types with RegisterModule, names pairwise distinct, Register/RegisterModule fill the function map and both name maps consistently, and the miss path of all four lookups returns a non-nil error; (2) for the closure registered under each scalar constant, by abstract interpretation (interval x monotonicity x may-NaN, input domain [-1e300,1e300] split at the constants the closure tests): the result lies in the documented range, is finite and never NaN, and is monotonically non-decreasing for the sigmoid family, tanh, linear, clipped-linear and step, including left/right values at every breakpoint; a construct outside the transfer-function table makes the obligation undecided (fails); (3) module folds: multiply starts from 1 and multiplies every input, max/min fold every input with math.Max/Min starting from an identity of the whole domain (±Inf, ±MaxFloat64 or the first element). (4) closed form: every piece of every scalar closure has the algebraic normal form of its documented definition; (5) network.ActivateNode and ActivateModule touch the node(s) with the looked-up value only under err == nil of that lookup and hand the error on. The interpreter follows if/else chains, tagless switches, early returns and (re-)assigned locals of the closure flow-sensitively; a closure produced by a one-line factory with constant arguments is interpreted with the captured constants. A registered activation may be a function literal or a declared top-level function; calls of pure straight-line float helpers of the package are unfolded, the `L: for { ...; break L }` blocks of helpers inlined by the normalisation are followed, idioms (square, soft-sign) are recognised by value through locals (equal normal forms), and input pieces carry open/closed bounds so that a branch excluded by an earlier comparison contributes no piece. The lookups' error result is judged per way it is produced (direct returns and values merged into a single return). A registration is a Register/RegisterModule call with constant arguments, or one element of a local table: an array or slice literal of structs that is written only by the literal (constant indices, outside loops) and otherwise only read inside the function, iterated completely (counter from 0 in steps of 1 up to the table's length, no other exit, not nested, on every path to the return) by a loop whose body makes the call exactly once per iteration with fields of the element at the counter, read directly or through a once-assigned local copy; such a loop counts as one registration per element with the values the literal stores. A scalar activation whose body is definitions of fresh locals followed by `return h(args)` with h a branching float helper of the package is interpreted as h's body with each parameter bound to its (pure) argument expression. A module activator may run its fold in ONE library function whose result it stores into the returned slice: the start value and the inputs are then the arguments the activator passes, and an operation called through a function-valued parameter is the operation of the function passed (math.Max / math.Min, or a function whose body is one return of x*y / math.Max(x, y) / math.Min(x, y) of its two parameters); every return of that function must yield the accumulator."
 	factory := p.Func(PkgM, "NewNodeActivatorsFactory")
 	regF := p.Func(PkgM, "NodeActivatorsFactory.Register")
 	regM := p.Func(PkgM, "NodeActivatorsFactory.RegisterModule")
@@ -243,7 +243,8 @@ func C18(p *Prog, r *Run) {
 			n++
 			r.Fn(g.constName + "=" + g.fn.Name())
 			pos := p.Pos(at)
-			res, ai, bad := analyseScalar(info, decls, ftype, body, g.bind)
+			ubody, ubind := c18ScalarBody(info, decls, ftype, body, g.bind) // a body that only forwards to a branching helper is that helper's body
+			res, ai, bad := analyseScalar(info, decls, ftype, ubody, ubind)
 			if bad != "" {
 				r.Undecided("range:"+g.constName, pos, "the abstract interpreter cannot decide this closure: "+bad)
 				continue
@@ -330,7 +331,8 @@ func C18(p *Prog, r *Run) {
 				continue
 			}
 			pos := p.Pos(at)
-			res, ai, bad := analyseScalar(info, decls, ftype, body, g.bind)
+			ubody, ubind := c18ScalarBody(info, decls, ftype, body, g.bind)
+			res, ai, bad := analyseScalar(info, decls, ftype, ubody, ubind)
 			if bad != "" {
 				r.Undecided("definition:"+g.constName, pos, "the closure's pieces cannot be enumerated: "+bad)
 				continue
@@ -398,47 +400,32 @@ func C18(p *Prog, r *Run) {
 			kind := moduleConsts[g.constName]
 			n++
 			fn := g.fn
-			tm := NewTermer(fn)
-			loops := Loops(fn)
-			if len(loops) != 1 {
-				r.Undecided("fold:"+kind, p.Pos(fn.Pos()), "expected one loop over the inputs")
+			// the accumulate loop: in the activator itself or in the one function it hands its inputs to
+			// (robust_c18.go c18FoldOf); start value, operation and operands are those of the activator either way
+			fd, whyF := c18FoldOf(fn)
+			if fd == nil {
+				r.Undecided("fold:"+kind, p.Pos(fn.Pos()), whyF)
 				continue
 			}
-			l := loops[0]
-			// accumulator phi (float) and its update
-			var acc *ssa.Phi
-			for _, ph := range HeaderPhis(l) {
-				if strings.HasPrefix(typeShort(ph.Type()), "float") {
-					acc = ph
-				}
-			}
-			if acc == nil {
+			if fd.acc == nil {
 				r.Bad("fold:"+kind, p.Pos(fn.Pos()), "no floating-point accumulator is carried around the loop")
 				continue
 			}
-			var init, upd *Term
-			for i, e := range acc.Edges {
-				if l.Blocks[acc.Block().Preds[i]] {
-					upd = tm.Of(e)
-				} else {
-					init = tm.Of(e)
-				}
+			if fd.host != fn {
+				r.Fn(FuncName(fd.host))
 			}
+			init, initIsInput := fd.initTerm()
 			pos := p.Pos(fn.Pos())
-			elemOK := func(t *Term) bool { return t.Op == "elem" && isParamIdx(t.Args[0], 0) }
-			accT := tm.Of(acc).String()
 			switch kind {
 			case "multiply":
-				_ = accT
-				okU := upd != nil && upd.Op == "bin" && upd.Name == "*" && ((upd.Args[0].V == ssa.Value(acc) && elemOK(upd.Args[1])) || (upd.Args[1].V == ssa.Value(acc) && elemOK(upd.Args[0])))
+				okU, upd := fd.updates("*")
 				r.Check(init != nil && init.String() == "1" && okU, "fold:multiply", pos, "product of all inputs starting from 1", fmt.Sprintf("multiply module: initial value %v, update %v; expected 1 and acc*input", init, upd))
 			case "max", "min":
 				want := "math.Max"
 				if kind == "min" {
 					want = "math.Min"
 				}
-				okU := upd != nil && upd.Op == "call" && upd.Name == want && len(upd.Args) == 2 &&
-					((upd.Args[0].V == ssa.Value(acc) && elemOK(upd.Args[1])) || (upd.Args[1].V == ssa.Value(acc) && elemOK(upd.Args[0])))
+				okU, upd := fd.updates(want)
 				r.Check(okU, "fold:"+kind+".update", pos, "acc = "+want+"(acc, input) for every input", fmt.Sprintf("%s module: update is %v, expected %s(acc, input)", kind, upd, want))
 				okI, whyI := false, fmt.Sprintf("initial value %v", init)
 				if init != nil {
@@ -454,45 +441,19 @@ func C18(p *Prog, r *Run) {
 							okI = f >= 1e300
 						}
 						whyI = fmt.Sprintf("the fold starts from %g, which is not an identity for inputs of magnitude up to 1e300: %s(%g, x) != x for |x| beyond it", f, want, f)
-					case init.Op == "call" && init.Name == "math.Inf":
+					case init.Op == "call" && init.Name == "math.Inf" && len(init.Args) == 1:
 						s := init.Args[0].String()
 						okI = (kind == "max" && strings.HasPrefix(s, "-")) || (kind == "min" && !strings.HasPrefix(s, "-"))
 						whyI = "the fold starts from the infinity of the wrong sign"
-					case init.Op == "elem" && isParamIdx(init.Args[0], 0):
+					case initIsInput:
 						okI = true
 					}
 				}
 				r.Check(okI, "fold:"+kind+".init", pos, "starts from an identity of "+want+" on the whole domain", kind+" module: "+whyI)
 			}
 			// the loop ranges over the inputs and the result is the accumulator
-			b, _, okC := loopCounterFrom(l, tm)
-			okLen := okC && b.String() == "len(p0)"
-			if !okLen {
-				// range loops use phi{-1,i}+1 < len
-				for bl := range l.Blocks {
-					if iff, ok := bl.Instrs[len(bl.Instrs)-1].(*ssa.If); ok {
-						if strings.HasSuffix(tm.Of(iff.Cond).String(), "<len(p0))") {
-							okLen = true
-						}
-					}
-				}
-			}
-			r.Check(okLen, "fold:"+kind+".all-inputs", pos, "iterates over every input", "the fold does not iterate over all inputs")
-			retOK := false
-			for _, bl := range fn.Blocks {
-				if ret, ok := bl.Instrs[len(bl.Instrs)-1].(*ssa.Return); ok {
-					// []float64{acc}
-					Instrs(fn, func(_ *ssa.BasicBlock, _ int, in ssa.Instruction) {
-						if st, ok := in.(*ssa.Store); ok && st.Val == ssa.Value(acc) {
-							if _, ok := st.Addr.(*ssa.IndexAddr); ok {
-								retOK = true
-							}
-						}
-					})
-					_ = ret
-				}
-			}
-			r.Check(retOK, "fold:"+kind+".result", pos, "returns the accumulated value", "the module does not return its accumulator")
+			r.Check(fd.allInputs(), "fold:"+kind+".all-inputs", pos, "iterates over every input", "the fold does not iterate over all inputs")
+			r.Check(fd.result(), "fold:"+kind+".result", pos, "returns the accumulated value", "the module does not return its accumulator")
 		}
 		r.Floor("module activations", n, 3)
 	})
